@@ -17,9 +17,11 @@ search(): the same two enumerations judged against the property text only.
 import os
 os.environ.setdefault("OMP_NUM_THREADS", "1")        # tiny matrices: BLAS threads only cost
 os.environ.setdefault("OPENBLAS_NUM_THREADS", "1")
+import concurrent.futures as CF
 import contextlib
 import io
 import json
+import multiprocessing
 import os
 import random
 import subprocess
@@ -35,7 +37,8 @@ THEOREMS = [P + t for t in (
     "all_apis_guarded", "bar_is_locked_protocol", "progress_kinds",
     "guarded_api_quiescent", "unguarded_failure_skips_exit",
     "no_timer_after_exit", "exit_returns_callbacks_drain", "interpreter_can_exit",
-    "api_leaves_nothing_behind", "silent_simple_trivial", "legacy_protocol_leaks")]
+    "api_leaves_nothing_behind", "silent_simple_trivial", "legacy_protocol_leaks",
+    "all_spawns_covered", "executors_leave_no_worker", "stored_executor_leaks")]
 
 PTYPES = ["silent", "simple", "bar"]
 WAIT = 120.0         # seconds the scheduler waits for a gated thread (infrastructure limit)
@@ -50,6 +53,8 @@ class ApiObservation:
         self.objects = []       # one dict per progress object, in order of construction
         self.raised = None
         self.extra_threads = [] # alive non-main threads the instrumentation did not attribute
+        self.pools = []         # one dict per executor pool the library created
+        self.fault_calls = {}
 
 
 def _state_char(t):
@@ -115,8 +120,34 @@ def run_api_case(build, ptype, kind, at):
                 self._c19["exceptional_exit"] = sys.exc_info()[0] is not None
             return super().exit()
 
+    pools = []
+
+    def logged_pool(basecls, kindname):
+        class LoggedPool(basecls):
+            def __init__(self, *a, **k):
+                super().__init__(*a, **k)
+                fr = sys._getframe(1)
+                self._c19 = {"func": fr.f_code.co_qualname, "line": fr.f_lineno,
+                             "kind": kindname, "submitted": 0, "failed_at": None}
+                pools.append(self)
+
+            def submit(self, *a, **k):
+                if "pool-submit" in faults:
+                    try:
+                        faults["pool-submit"].tick()
+                    except BaseException:
+                        self._c19["failed_at"] = self._c19["submitted"]
+                        raise
+                self._c19["submitted"] += 1
+                return super().submit(*a, **k)
+        return LoggedPool
+
     before = set(threading.enumerate())
+    procs_before = set(multiprocessing.active_children())
     saved_timer = U.Timer
+    saved_pools = (CF.ThreadPoolExecutor, CF.ProcessPoolExecutor)
+    CF.ThreadPoolExecutor = logged_pool(saved_pools[0], "threadPool")
+    CF.ProcessPoolExecutor = logged_pool(saved_pools[1], "processPool")
     U.PROGRESS_DICT[eff] = Logged
     U.Timer = CountingTimer
     for f in faults.values():
@@ -133,6 +164,8 @@ def run_api_case(build, ptype, kind, at):
     finally:
         U.PROGRESS_DICT[eff] = base
         U.Timer = saved_timer
+        CF.ThreadPoolExecutor, CF.ProcessPoolExecutor = saved_pools
+        obs.fault_calls = {k: f.calls for k, f in faults.items()}
         for f in faults.values():
             f.disarm()
     # drain: a cancelled timer thread ends at once (the generous limit only matters on a
@@ -145,12 +178,39 @@ def run_api_case(build, ptype, kind, at):
         o["tm"] = "".join(_state_char(t) for t in mine)
         o["alive"] = sum(1 for t in mine if t.is_alive())
         o["blocks"] = int(any(t.is_alive() and not t.daemon for t in mine))
-    obs.extra_threads = [t.name for t in threading.enumerate()
-                         if t not in before and t.is_alive() and t not in timers]
-    obs.alive_names = ["%s(daemon=%s)" % ("Timer" if isinstance(t, threading.Timer)
-                                          else type(t).__name__, t.daemon)
-                       for t in threading.enumerate() if t not in before and t.is_alive()]
+    # executor pools: their workers (threads, or processes + the manager thread)
+    pool_threads = set()
+    for pl in pools:
+        d = pl._c19
+        ths = list(getattr(pl, "_threads", ()) or ())
+        mt = getattr(pl, "_executor_manager_thread", None)
+        if mt is not None:
+            ths.append(mt)
+        prs = list((getattr(pl, "_processes", None) or {}).values())
+        pool_threads.update(ths)
+        d["max_workers"] = pl._max_workers
+        d["shutdown"] = int(bool(getattr(pl, "_shutdown", False)
+                                 or getattr(pl, "_shutdown_thread", False)))
+        d["alive"] = sum(1 for t in ths if t.is_alive()) + sum(1 for q in prs if q.is_alive())
+        obs.pools.append(d)
+    new_threads = [t for t in threading.enumerate() if t not in before and t.is_alive()]
+    new_procs = [q for q in multiprocessing.active_children() if q not in procs_before]
+    obs.extra_threads = [t.name for t in new_threads
+                         if t not in timers and t not in pool_threads]
+
+    def label(t):
+        if isinstance(t, threading.Timer):
+            return "Timer(daemon=%s)" % t.daemon
+        if t.name.startswith("ThreadPoolExecutor"):
+            return "ThreadPoolExecutor-worker"
+        return "%s(daemon=%s)" % (type(t).__name__, t.daemon)
+    obs.alive_names = sorted(label(t) for t in new_threads) + ["child-process"] * len(new_procs)
     # clean up whatever leaked
+    for pl in pools:
+        try:
+            pl.shutdown(wait=True)
+        except Exception:
+            pass
     for t in timers:
         t.cancel()
     for t in timers:
@@ -177,20 +237,16 @@ def api_cases(tier, rng):
     nbar = 2 if tier == "quick" else 12
     nother = 1 if tier == "quick" else 4
     for name, (funcs, build) in runners.items():
-        faults, call = build()
-        for f in faults.values():
-            f.arm(None)
-        with contextlib.redirect_stdout(io.StringIO()):
-            try:
-                call("silent")
-            except Exception:
-                pass
-        totals = {k: f.calls for k, f in faults.items()}
-        for pt in PTYPES:
+        totals = run_api_case(build, "silent", None, None).fault_calls
+        light = getattr(build, "light", False) and tier == "quick"
+        for pt in (("silent",) if light else PTYPES):
             cases.append((name, None, None, pt))
         for kind, total in totals.items():
             pts = fault_points(total, nbar)
             if not pts:
+                continue
+            if light:
+                cases.append((name, kind, pts[len(pts) // 2], "bar"))
                 continue
             for at in pts:
                 cases.append((name, kind, at, "bar"))
@@ -211,7 +267,7 @@ def table_rows(line):
     return rows
 
 
-def correspondence_api(res, tier, rng, table):
+def correspondence_api(res, tier, rng, table, spawns=()):
     import oqupy.util as U
     runners, cases = api_cases(tier, rng)
     known_funcs = {r["func"] for r in table}
@@ -224,9 +280,31 @@ def correspondence_api(res, tier, rng, table):
     site = {(r["func"], r["line"]): r["index"] for r in table}
     lines, expect, meta = [], [], []
     hit = set()
+    pool_site = {(r["func"], r["line"]): r for r in spawns
+                 if r["kind"] in ("threadPool", "processPool")}
+    pool_hit, pool_lines = set(), set()
     for (name, kind, at, ptype) in cases:
         funcs, build = runners[name]
         obs = run_api_case(build, ptype, kind, at)
+        for d in obs.pools:
+            res.count("pool:%s" % d["kind"])
+            key = (d["func"], d["line"])
+            if key not in pool_site or pool_site[key]["kind"] != d["kind"]:
+                res.disagree("executor pool created at a site that is not in the generated "
+                             "spawn table", {"pool": d, "case": [name, kind, at, ptype]})
+                continue
+            pool_hit.add(key)
+            n = d["submitted"] + (1 if d["failed_at"] is not None else 0)
+            line = "pool %s %d %d %d %s" % (d["func"], d["line"], d["max_workers"], n,
+                                            "none" if d["failed_at"] is None else d["failed_at"])
+            exp = "shutdown=%d leak=%d" % (d["shutdown"], int(d["alive"] > 0))
+            if (line, exp) in pool_lines:
+                continue
+            pool_lines.add((line, exp))
+            lines.append(line)
+            expect.append(exp)
+            meta.append({"runner": name, "fault": kind, "at": at, "progress_type": ptype,
+                         "raised": obs.raised, "pool": d})
         eff = U.PROGRESS_TYPE if ptype is None else ptype
         res.count("api:%s" % eff)
         res.count("fault:%s" % (kind or "none"))
@@ -256,6 +334,9 @@ def correspondence_api(res, tier, rng, table):
     not_hit = sorted(set((r["func"], r["index"]) for r in table) - hit)
     res.oblige("every row of the generated table was reached by a real run", not not_hit,
                "never reached: %s" % not_hit)
+    pools_not_hit = sorted(set(pool_site) - pool_hit)
+    res.oblige("every executor site of the generated spawn table was reached by a real run",
+               not pools_not_hit, "never reached: %s" % pools_not_hit)
     return lines, expect, meta
 
 
@@ -664,10 +745,16 @@ def check_race_payload(p, ops):
 
 
 def correspondence(res, tier, rng):
-    out0 = fw.run_driver(PID, ["table", "proto bar"])
+    out0 = fw.run_driver(PID, ["table", "proto bar", "spawns"])
     table = table_rows(out0[0])
     ops = parse_proto(out0[1])
+    spawns = []
+    for r in out0[2].split(";"):
+        if r:
+            f, func, ln, kd, sc = r.split("|")
+            spawns.append({"file": f, "func": func, "line": int(ln), "kind": kd, "scope": sc})
     res.count("api-table-rows", len(table))
+    res.count("spawn-table-rows", len(spawns))
     # corpus first: recorded failures must not fail any more (they are re-judged by the
     # property, and stay in the comparison below through the generated cases)
     for fn, blob in corpus_cases():
@@ -680,7 +767,7 @@ def correspondence(res, tier, rng):
         res.case("corpus:" + fn, True)
         if bad is not None:
             res.disagree("corpus case %s still fails" % fn, {"input": p, "observed": bad})
-    l1, e1, m1 = correspondence_api(res, tier, rng, table)
+    l1, e1, m1 = correspondence_api(res, tier, rng, table, spawns)
     l2, e2, m2 = correspondence_schedules(res, tier, rng, ops)
     lines, expect, meta = l1 + l2, e1 + e2, m1 + m2
     out = fw.run_driver(PID, lines)
@@ -690,7 +777,7 @@ def correspondence(res, tier, rng):
         if line.startswith("explore"):
             got = got.split(" first=")[0]
         nontrivial = True
-        if line.startswith("api"):
+        if line.startswith("api") or line.startswith("pool"):
             nontrivial = m["fault"] is not None
         res.case(line, nontrivial, {"op": line[:160], "impl": exp[-160:], "model": got[-160:]})
         if exp != got:
@@ -738,13 +825,20 @@ def search(res, rng=None):
             for o in obs.objects:
                 if o.get("alive"):
                     culprit = "%s@%s" % (o["func"], o["title"])
+            for d in obs.pools:
+                if d.get("alive"):
+                    culprit = "pool:%s:%s" % (d["func"], d["kind"])
             if first_bar_failure is None and kind is not None:
                 first_bar_failure = (name, kind, at, ptype)
-            res.fail("leak:%s:%s" % (culprit or name, eff),
+            key = "leak:%s" % culprit if (culprit or "").startswith("pool:") \
+                else "leak:%s:%s" % (culprit or name, eff)
+            res.fail(key,
                      {"type": "api", "runner": name, "fault": kind, "at": at,
                       "progress_type": ptype, "raised": obs.raised,
                       "alive_threads_after_call": obs.alive_names,
                       "progress_calls": [o["calls"] for o in obs.objects],
+                      "pools": [{k: d[k] for k in ("func", "kind", "submitted", "shutdown", "alive")}
+                                for d in obs.pools if d.get("alive")],
                       "how": "oq.c19_runners()[%r]: arm fault %r at invocation %r, call with "
                              "progress_type=%r, then threading.enumerate()" % (name, kind, at, ptype)})
     # schedules of the real ProgressBar (harness-side exploration only, no model involved)
@@ -803,12 +897,19 @@ def run(tier, seed, replay):
                 "0-2 updates / 1 firing depth-first, random schedules for <= 2 firings; every "
                 "step's timer states, _timer, _active, lock, next statements and enabled actions "
                 "vs the model, exact; schedule and leak counts vs the model's own exploration.  "
+                "(iii) PtTebd with backend_config parallel=multithread / multiprocess, failures "
+                "injected into the process tensor and into the k-th executor submit(): every "
+                "executor pool the library creates (creation site, tasks submitted, shut down, "
+                "workers alive after the call) vs the generated spawn table + pool model, exact.  "
                 "Non-trivial = a failure was injected / any schedule; distinct = distinct "
                 "protocol line.")
     res.assumptions = [
         "CPython threading.Timer: cancel() before the interval elapsed => the callback never "
         "runs; cancel() while the callback runs => no effect; start() twice raises",
         "threading.Lock is a mutex; `with lock:` releases on return and on exception",
+        "concurrent.futures: Executor.__exit__ is shutdown(wait=True), which returns only after "
+        "every worker thread / process (and the process pool's manager thread) was joined; at "
+        "most one worker is started per submission",
         "statement-level atomicity of the micro-ops; under the lock this is immaterial since "
         "every access to _timer/_active is inside a critical section (lockedProtocol)",
         "the computation between two progress calls terminates or raises (skeleton: "
@@ -822,6 +923,10 @@ def run(tier, seed, replay):
         "written if it fired just before exit(); no further writes follow",
         "failures raised from inside the progress methods themselves (stream write errors)",
     ]
+    res.trusted.append("the spawn table lists constructor calls by callee name (ThreadPoolExecutor, "
+                       "ProcessPoolExecutor, Pool, Thread, Timer, Process, Popen, fork, "
+                       "start_new_thread) in oqupy/**/*.py; threads started by numpy / BLAS / "
+                       "h5py internals are outside it")
     res.trusted.append("sys.settrace line gating and the fake Timer used to drive the real "
                        "ProgressBar through schedules")
     fw.standard_pipeline(res, ["ProgressGuard"], THEOREMS)
